@@ -425,6 +425,13 @@ func TestGrid(t *testing.T) {
 			}
 		}
 	}
+	vk.MarkExhaustive("every (start bit mod 8, width 0..32, bytes remaining 0..6) x leads {0,3} x 24 fixed contents")
+}
+
+// TestLast runs at the very end of the process: huge inputs (the maximum bitmap / string) and the regression cases of that size come last, so that
+// what they leave behind in the library cannot mask anything the ordinary cases would have met.
+func TestLast(t *testing.T) {
+	vk.SetPhase("last")
 	// the maximum string: 2^28 bytes (8*len = 2^31 fits no int32), and a few bytes less
 	for _, cut := range []int{0, 1, 4, 5} {
 		L8 := int64(8 * (gen.MaxStrLen - cut))
@@ -436,5 +443,5 @@ func TestGrid(t *testing.T) {
 			}
 		}
 	}
-	vk.MarkExhaustive("every (start bit mod 8, width 0..32, bytes remaining 0..6) x leads {0,3} x 24 fixed contents")
+	checker.RegressLast(t)
 }
